@@ -20,7 +20,7 @@ Definition empty_lstate : lstate := mkLS [] [] [] [].
 
 Inductive lcall :=
 | LActivate (c : N) | LDeactivate (c : N)
-| LAttach (c d : N) | LPushPull (c d : N) (nchanges : Z) | LDetach (c d : N) (nchanges : Z) | LRemove (c d : N) (nchanges : Z).
+| LAttach (c d : N) (nchanges : Z) | LAttachSame (c d : N) (nchanges : Z) | LPushPull (c d : N) (nchanges : Z) | LDetach (c d : N) (nchanges : Z) | LRemove (c d : N) (nchanges : Z).
 
 Definition cur_gen (s : lstate) (d : N) : N :=
   match aget (l_gens s) d with Some g => g | None => 0%N end.
@@ -77,7 +77,7 @@ Definition lstep (s : lstate) (call : lcall) : bool * lstate :=
           else (false, s)
       | None => (false, s)
       end
-  | LAttach c d =>
+  | LAttach c d n =>
       match aget (l_clients s) c with
       | Some x =>
           if lc_active x then
@@ -89,7 +89,25 @@ Definition lstep (s : lstate) (call : lcall) : bool * lstate :=
                          end in
             if dstatus_eqb known DAttached then (false, s)
             else (true, mkLS (aset (l_clients s) c (mkLC true (set_doc (lc_docs x) (mkLD d g' DAttached))))
-                             (aset (l_gens s) d g') (l_removed s) (l_writes s))
+                             (aset (l_gens s) d g') (l_removed s) (wadd (l_writes s) d g' n))
+          else (false, s)
+      | None => (false, s)
+      end
+  | LAttachSame c d n =>
+      (* attach with the Document instance this identity used before: only a fresh
+         instance may be attached (re-using a detached or removed one is refused, an
+         attached one is attached already) *)
+      match aget (l_clients s) c with
+      | Some x =>
+          if lc_active x then
+            match find_doc (lc_docs x) d with
+            | Some _ => (false, s)
+            | None =>
+                let g := cur_gen s d in
+                let g' := if is_removed s d g then (g + 1)%N else g in
+                (true, mkLS (aset (l_clients s) c (mkLC true (set_doc (lc_docs x) (mkLD d g' DAttached))))
+                            (aset (l_gens s) d g') (l_removed s) (wadd (l_writes s) d g' n))
+            end
           else (false, s)
       | None => (false, s)
       end
